@@ -300,3 +300,101 @@ func VerifUniquifierAccepted(current, seen string) bool {
 	_, ok := m.contents[CompleteFile]
 	return ok
 }
+
+// ---------------------------------------------------------------- attempts
+
+// Mkdirs creates the journal directory and the directory of every fork, so
+// that jobs can be started (Metadata.uniquify makes directories and links).
+func (t *VerifTree) Mkdirs() error {
+	if err := os.MkdirAll(t.top.journalPath, 0o755); err != nil {
+		return err
+	}
+	for _, n := range t.nodes {
+		for _, f := range n.forks {
+			if err := os.MkdirAll(f.path, 0o755); err != nil {
+				return err
+			}
+		}
+	}
+	return nil
+}
+
+func (t *VerifTree) jobMetadata(node, fork, chunk int, runType string) *Metadata {
+	f := t.nodes[node].forks[fork]
+	switch runType {
+	case "split":
+		return f.split_metadata
+	case "join":
+		return f.join_metadata
+	}
+	return f.chunks[chunk].metadata
+}
+
+// StartJob does what mrp does before it launches the job: Metadata.uniquify
+// (Chunk.mkdirs, Fork.mkdirs).  Returns the uniquifier, the job directory and
+// the journal prefix handed to the job (Metadata.journalFile).
+func (t *VerifTree) StartJob(node, fork, chunk int, runType string) (uniq, dir, runFile string, err error) {
+	m := t.jobMetadata(node, fork, chunk, runType)
+	err = m.uniquify()
+	return m.uniquifier, m.path, m.journalFile(), err
+}
+
+// ResetJob is Metadata.uncheckedReset: what every retry / restart path does
+// with a job it gave up on.
+func (t *VerifTree) ResetJob(node, fork, chunk int, runType string) (uniq, dir, runFile string, err error) {
+	m := t.jobMetadata(node, fork, chunk, runType)
+	err = m.uncheckedReset()
+	return m.uniquifier, m.path, m.journalFile(), err
+}
+
+// JobNotify is a job process (mrjob) that was launched with the journal
+// prefix runFile writing a notification for metadata file `file`.
+func (t *VerifTree) JobNotify(runFile, runType, file string) error {
+	job := NewMetadataRunWithJournalPath(path.Base(runFile), "", "", path.Dir(runFile), runType)
+	return job.UpdateJournal(MetadataFileName(file))
+}
+
+// Refresh follows Node.refreshState over the real journal directory: every
+// file is parsed and routed (Route), the update is applied to the metadata
+// object it was routed to the way Chunk.updateState / Fork.updateState do
+// (Metadata.cache with the parsed uniquifier), and the file is removed.
+// Returns the file names seen.
+func (t *VerifTree) Refresh() ([]string, error) {
+	files, err := os.ReadDir(t.top.journalPath)
+	if err != nil {
+		return nil, err
+	}
+	var names []string
+	for _, fi := range files {
+		name := fi.Name()
+		names = append(names, name)
+		node, fork, chunk, uniq, state, target := t.Route(name)
+		if node >= 0 && fork >= 0 && chunk != -2 {
+			f := t.nodes[node].forks[fork]
+			switch target {
+			case 3:
+				f.chunks[chunk].metadata.cache(MetadataFileName(state), uniq)
+			case 1:
+				f.split_metadata.cache(MetadataFileName(state[len(SplitPrefix):]), uniq)
+			case 2:
+				f.join_metadata.cache(MetadataFileName(state[len(JoinPrefix):]), uniq)
+			default:
+				f.metadata.cache(MetadataFileName(state), uniq)
+			}
+		}
+		os.Remove(path.Join(t.top.journalPath, name))
+	}
+	return names, nil
+}
+
+// JobContents returns the metadata file names mrp has recorded for the job.
+func (t *VerifTree) JobContents(node, fork, chunk int, runType string) []string {
+	m := t.jobMetadata(node, fork, chunk, runType)
+	m.mutex.Lock()
+	defer m.mutex.Unlock()
+	names := make([]string, 0, len(m.contents))
+	for k := range m.contents {
+		names = append(names, string(k))
+	}
+	return names
+}
